@@ -1,6 +1,7 @@
 package c06
 
 import (
+	"fmt"
 	"testing"
 
 	"pgregory.net/rapid"
@@ -78,6 +79,22 @@ func runWriters(t *testing.T, col *ev.Collector) {
 			c := WCase{Ops: []WOp{{Kind: "import", File: fi, Stmts: append([]string{}, []string{"CREATE TABLE a (id integer)", "CREATE TABLE b (c text DEFAULT 'x;y')", "INSERT INTO a VALUES (1)", "CREATE TABLE c (id integer)"}[:n]...)}}}
 			if !ev.Each(col, "writers-import-formats", c, check, knownW) {
 				return
+			}
+		}
+	}
+	// `migrate diff` on a directory kept in another tool's layout, the layout named by the URL, by the project file, or by
+	// --dir-format next to a directory from the project file
+	for _, f := range []string{"golang-migrate", "flyway", "goose", "dbmate", "atlas"} {
+		for _, route := range []string{"url", "env", "flag-over-env"} {
+			for _, fresh := range []bool{false, true} {
+				c := FCase{Format: f, Route: route, Fresh: fresh}
+				if !ev.Each(col, "diff-in-foreign-layout", c, func(c FCase) error {
+					col.Class("writer/diff/layout=" + c.Format + "/named-by=" + c.Route)
+					col.NonTrivial(fmt.Sprintf("layout|%s|%s|%v", c.Format, c.Route, c.Fresh))
+					return checkFormat(c)
+				}, ev.Matcher[FCase]{}) {
+					return
+				}
 			}
 		}
 	}
